@@ -40,6 +40,7 @@ type c02Received struct {
 
 type c02Stub struct {
 	mu       sync.Mutex
+	tag      string // requests of an earlier Authenticate call (a timed-out one may arrive late) carry another tag
 	beh      c02Behaviour
 	got      []c02Received
 	release  chan struct{}
@@ -48,6 +49,11 @@ type c02Stub struct {
 func (s *c02Stub) ServeHTTP(w http.ResponseWriter, r *http.Request) {
 	body, _ := io.ReadAll(r.Body)
 	s.mu.Lock()
+	if !strings.HasSuffix(r.URL.Path, "/"+s.tag) {
+		s.mu.Unlock()
+		w.WriteHeader(http.StatusGone) // straggler of an abandoned call
+		return
+	}
 	beh := s.beh
 	s.got = append(s.got, c02Received{r.Method, r.URL.Path, r.Header.Get("Content-Type"), body})
 	rel := s.release
@@ -61,12 +67,12 @@ func (s *c02Stub) ServeHTTP(w http.ResponseWriter, r *http.Request) {
 	}
 
 	switch {
-	case r.URL.Path == "/final":
+	case strings.HasPrefix(r.URL.Path, "/final/"):
 		writeFinal()
 	case beh.kind == "status":
 		writeFinal()
 	case beh.kind == "redirect":
-		w.Header().Set("Location", "/final")
+		w.Header().Set("Location", "/final/"+strings.TrimPrefix(r.URL.Path, "/auth/"))
 		w.WriteHeader(beh.redirect)
 	case beh.kind == "hang":
 		select {
@@ -158,19 +164,14 @@ func TestVerifC02HTTP(t *testing.T) {
 	t.Cleanup(kit.Flush)
 
 	// one listener for the whole run; the stub keeps no state across requests (behaviour and log are reset
-	// before every Authenticate call), the Manager is fresh per case
+	// before every Authenticate call, and every call has its own URL), the Manager is fresh per request
 	stub := &c02Stub{}
 	srv := httptest.NewServer(stub)
 	defer srv.Close()
+	seq := 0
 
 	rapid.Check(t, func(t *rapid.T) {
 		exclude := c02GenPerms(t, "exclude.", 3)
-		m := &Manager{
-			Method:      conf.AuthMethodHTTP,
-			HTTPAddress: srv.URL + "/auth",
-			HTTPExclude: c02ToConfPerms(exclude),
-			ReadTimeout: 20 * time.Second,
-		}
 
 		var hist strings.Builder
 		fmt.Fprintf(&hist, "exclude=%v :: ", exclude)
@@ -234,9 +235,17 @@ func TestVerifC02HTTP(t *testing.T) {
 			if beh.kind == "hang" {
 				readTimeout = 60 * time.Millisecond
 			}
-			m.ReadTimeout = readTimeout
+			seq++
+			tag := fmt.Sprintf("n%d", seq)
+			m := &Manager{
+				Method:      conf.AuthMethodHTTP,
+				HTTPAddress: srv.URL + "/auth/" + tag,
+				HTTPExclude: c02ToConfPerms(exclude),
+				ReadTimeout: readTimeout,
+			}
 
 			stub.mu.Lock()
+			stub.tag = tag
 			stub.beh = beh
 			stub.got = nil
 			stub.release = make(chan struct{})
@@ -321,7 +330,7 @@ func TestVerifC02HTTP(t *testing.T) {
 					}
 				}
 				if beh.kind == "redirect" && beh.status >= 200 && beh.status <= 299 {
-					if len(received) != 2 || received[1].path != "/final" {
+					if len(received) != 2 || received[1].path != "/final/"+tag {
 						t.Fatalf("admitted after a redirect, but the final endpoint did not get the POST\n %s", d)
 					}
 				}
